@@ -3,7 +3,6 @@ package obfuscation
 import (
 	"fmt"
 	"strconv"
-	"strings"
 
 	"golang.org/x/exp/slices"
 
@@ -155,25 +154,11 @@ func (obfuscator Obfuscator) obfuscateJSON(
 	return obfuscatedJSON, nil
 }
 
-// isCursorInExcludedPath checks if the given path segment should be excluded from obfuscation
-// usage only slices.Contains(excludedPaths, cursor) cannot work for JSONPath exclusions,
-// since it compares the whole string and works only for simple strings exclusions
+// isCursorInExcludedPath checks if the given path should be excluded from obfuscation.
+// Only the exact path is excluded (children are kept verbatim by the caller); JSONPath style
+// exclusions ("$.request.body.a.b") are converted to this notation by their callers.
 func isCursorInExcludedPath(cursor string, excludedPaths []string) bool {
-	// simple string comparison
-	if slices.Contains(excludedPaths, cursor) {
-		return true
-	}
-
-	// json path support
-	if cursor == "" {
-		return false
-	}
-	for _, path := range excludedPaths {
-		if strings.HasSuffix(path, cursor) {
-			return true
-		}
-	}
-	return false
+	return slices.Contains(excludedPaths, cursor)
 }
 
 func getKeys(object *fastjson.Object) []string {
